@@ -61,6 +61,32 @@ def run(ctx):
             ok = True
     c.ob("R7", ok, rh, "shallow-restores-direct-child", "shallow history restores the remembered direct child of the history node's parent" if ok else
          "the shallow-history branch no longer filters the remembered states to direct children of the history node's parent", rh.node)
+    # ---- R8 the record keeps every active descendant (shallow AND deep need it) -----------------
+    rec_f = p.method("BaseInterpreter", "_record_history")
+    stores = [x for x in own_nodes(rec_f.node) if isinstance(x, ast.Assign) and isinstance(x.targets[0], ast.Subscript) and "_history" in norm(x.targets[0].value)]
+    c.floor("R8", "stores into _history", len(stores), 1)
+    for x in stores:
+        val = x.value
+        if isinstance(val, ast.Name):
+            from sa.util import assignments_to
+            defs = [a for a in assignments_to(rec_f, val.id) if isinstance(a, ast.Assign) and any(isinstance(t_, ast.Name) and t_.id == val.id for t_ in a.targets)]
+            comps = [y for a in defs for y in ast.walk(a.value) if isinstance(y, (ast.ListComp, ast.GeneratorExp))]
+        else:
+            comps = [y for y in ast.walk(val) if isinstance(y, (ast.ListComp, ast.GeneratorExp))]
+        extra = []
+        n_assign = len(defs) if isinstance(val, ast.Name) else 1
+        for y in comps:
+            for cnd in y.generators[0].ifs:
+                for a, pol in __import__("sa.cfg", fromlist=["split_atoms"]).split_atoms(cnd, True):
+                    t = norm(a)
+                    if "_is_descendant" in t or " is not " in t or " is " in t and "state" in t:
+                        continue
+                    extra.append(t)
+        ok = not extra and n_assign == 1
+        c.ob("R8", ok, rec_f, "record-keeps-all-descendants",
+             "the remembered configuration is every active descendant of the history owner" if ok else
+             f"the remembered configuration is filtered / rebuilt at record time ({extra or 'several assignments'}): shallow history needs the owner's "
+             f"immediate child and deep history the leaves, so a record trimmed for one kind makes the other restore the wrong states", x)
     # ---- R2 / R3 ---------------------------------------------------------------------
     shared.history_target_nonempty(ctx, "R2")
     shared.single_history_entry(ctx, "R3")
